@@ -183,7 +183,7 @@ func main() {
 			f := &hr.Findings[k]
 			b, _ := json.MarshalIndent(map[string]interface{}{
 				"property": *prop, "module": *mod, "package": *pkgPat, "harness": f.Harness, "kind": f.Kind,
-				"assert_id": f.AssertID, "msg": f.Msg, "known": f.Known, "trace": f.Trace, "nondets": f.Nondets, "stack": f.Stack,
+				"assert_id": f.AssertID, "msg": f.Msg, "known": f.Known, "engine_only": f.EngineOnly, "trace": f.Trace, "nondets": f.Nondets, "stack": f.Stack,
 				"tier": tierN,
 			}, "", " ")
 			h := sha1.Sum([]byte(f.Harness + f.Trace + f.Kind + f.AssertID))
